@@ -91,7 +91,7 @@ JOBS.update({
         wall_quick=55, wall_thorough=1200,
         assumptions=["interrupts may be lost (the property does not promise delivery) but never duplicated, late or stale",
                      "a quarter of the resumes carry the success code, as in the tutorials (at most one per process and instant); timers never carry the value 0",
-                     "a timer still armed when its process receives an interrupt or preemption notice may or may not fire afterwards (either is accepted)",
+                     "once an interrupt or a preemption notice has been delivered, every timer that was armed before the interrupt was sent (the preemption happened) is dead and must never fire; only a timer that somebody else armed on the process between that moment and the delivery, in the same instant, may or may not fire (the library clears it in one case and keeps it in the other)",
                      "a return with a non-success value must match exactly one undelivered cause with that unique value, due at exactly that instant"]),
     "C05": dict(level="fault_enumeration", rule=PROCS_RULE,
         jobs=procs_jobs("C05", ["mix=res,faults=0", "mix=res,faults=1", "mix=res,faults=2", "mix=all,faults=2"], 900000, 24000000, crowd_mix="mix=res,faults=2,crowd=1", churn=10000),
